@@ -149,12 +149,13 @@ fn report(p: &str, tier: Tier, seed: u64, reports: &[UnitReport], meta: &props::
             ("traces_validated_against_impl", J::Int(sum(&|r| r.native_replays) as i64)),
             ("samples", J::Arr(samples)),
             ("exhaustive", J::Bool(exhaustive)),
-            ("explanation", J::s("states = feasible paths of the real code's comparison tree explored symbolically (each path covers every real-valued input satisfying its path condition); transitions = SMT queries discharged by z3 (branch feasibility + obligations); exhaustive = every feasible path within the stated bounds was explored (no path cap hit, no unit cut short)")),
+            ("explanation", J::s("states = feasible paths of the real code's comparison tree explored symbolically (each path covers every real-valued input satisfying its path condition); transitions = SMT queries discharged by z3 (branch feasibility + obligations; comparisons and equalities that the engine's exact linear / polynomial normal forms decide outright never reach the solver and are counted separately as atoms_decided_by_normal_form); exhaustive = every feasible path within the stated bounds was explored (no path cap hit, no unit cut short)")),
             ("engine", J::s("engine R: the crate's real generic View<T> code instantiated at T = Sym (term-building scalar), recompiled from /repo's working tree for this run; z3 over a pipe decides")),
             ("functions_encoded", J::arr_s(meta.functions.iter().map(|s| s.to_string()))),
             ("bounds", J::s(meta.bounds)), ("outside_the_bounds", J::arr_s(meta.outside.iter().map(|s| s.to_string()))),
             ("units", J::Int(n_units as i64)), ("obligations", J::Int(sum(&|r| r.obligations) as i64)), ("discharged", J::Int(sum(&|r| r.discharged) as i64)),
             ("discharged_by_term_identity", J::Int(sum(&|r| r.discharged_ident) as i64)), ("equal_in_reals_only", J::Int(sum(&|r| r.real_equal_only) as i64)),
+            ("atoms_decided_by_normal_form", J::Int(sum(&|r| r.normal_form_decisions) as i64)),
             ("undecided", J::arr_s(inconclusive.iter().cloned())),
             ("queries_sat", J::Int(sum(&|r| r.n_sat) as i64)), ("queries_unsat", J::Int(sum(&|r| r.n_unsat) as i64)), ("queries_unknown", J::Int(sum(&|r| r.n_unknown) as i64)), ("queries_nonlinear", J::Int(sum(&|r| r.n_nl) as i64)),
             ("solver_time_s", J::Num((reports.iter().map(|r| r.solver_secs).sum::<f64>() * 100.0).round() / 100.0)),
